@@ -123,7 +123,7 @@ theorem wsAllLeafX (S : WStable P) : LeafX (WsAll P) where
   setLoopStop := fun b => by unfold setLoopStop; ws_same
   clearDone := by unfold clearDone; ws_same
   unregister := fun u => by unfold unregisterWatcher; ws_same
-  registerNew := wsAll_registerNew S
+  registerNew := fun w _ => wsAll_registerNew S w
   fireSleeper := fun sl => by unfold fireSleeper; ws_same
   enqueueResume := fun k v w => by unfold enqueue; ws_same
   enqueueCallback := fun n => by unfold enqueue; ws_same
